@@ -21,7 +21,9 @@ EXPLANATION = (
     'vocabulary the active language\'s templates key on (data: rule values of the Japanese template file are Japanese '
     'symbols, those of the English file are label strings; code: every to_jigg_xml call feeding ccg2lambda.parse selects '
     'symbols exactly as the plain jigg_xml branch does).  Offsets tiling, tree isomorphism and token normalisation are '
-    'value-level and not decided.')
+    'value-level and not decided.'
+    ' The XML readers / writers hand on sentences and n-best trees in the order read (no sort / reverse / set); no default argument evaluates the language at import time; the Jigg writer is found by role and its id / position bookkeeping is accepted as counter, threaded parameter or per-tree counter.'
+)
 TRUSTED = ['CPython ast', 'sa/pysym.py path walker', 'a line-based scan of the YAML templates for `rule:` values']
 
 PX = 'depccg/printer/xml.py'
